@@ -609,7 +609,7 @@ func init() {
 func TestC10_Peg(t *testing.T) {
 	st := ev.New("C10", "TestC10_Peg", "fresh chain with a coin-origin pair and four ERC20-origin pairs (honest, delayed-malicious, balance-manipulating, fake-event/misreporting token); 2-12 ops: MsgConvertCoin / MsgConvertERC20 (to self or another user, absolute or whole-balance ±1 amounts), ERC20 transfer to the module (EVM hook), ERC20-aware bank MsgSend, pair toggles, holder burns, the thief spending a secret allowance; non-trivial = >= 2 different successful conversion paths on one pair, or a successful op on a non-honest token")
 	runCorpus(t, st)
-	runRapid(t, st, 200, 8000, func(rt *rapid.T) {
+	runRapid(t, st, 200, 20000, func(rt *rapid.T) {
 		if msg := runC10(st, genC10(rt)); msg != "" {
 			rt.Fatalf("%s", msg)
 		}
